@@ -274,6 +274,26 @@ def windows_frame(x, y, dx, integral_values, fixed_points_indices_in_x, integral
                        eq(result[fixed_points_indices_in_x[j]], y[fixed_points_indices_in_x[j]])))
 
 
+def prof_w(x, lo, hi, p, alpha):
+    """documented shift profile of the window between the fixed indices lo < hi, at sample p"""
+    return 1 - pw(2 * absr((x[hi] + x[lo]) / 2 - x[p]) / (x[hi] - x[lo]), alpha)
+
+
+def profile_shaped(x, y, result, lo, hi, alpha):
+    """the displacement over the window [lo, hi] is one factor times the documented profile (ratio form, first interior sample
+    as the reference: no existential)"""
+    return forall(range(lo, hi + 1), lambda p:
+                  eq((result[p] - y[p]) * prof_w(x, lo, hi, lo + 1, alpha), (result[lo + 1] - y[lo + 1]) * prof_w(x, lo, hi, p, alpha)))
+
+
+@ensures(WINDOWS, assumed='bounded: run-time monitoring on generated inputs only (the kernel proves the profile per window '
+                          '- kernel_profile; that every window of the loop is stretched with the requested exponent is monitored)')
+def windows_profile_rt_c03(x, y, dx, integral_values, fixed_points_indices_in_x, integral_method, alpha, s, result):
+    """C03: within every window the samples move along the documented profile for the requested exponent"""
+    return forall(range(len(fixed_points_indices_in_x) - 1), lambda j:
+                  profile_shaped(x, y, result, fixed_points_indices_in_x[j], fixed_points_indices_in_x[j + 1], alpha))
+
+
 # ============================================================================ resolution (top level)
 
 contract(TOP, params=dict(x=Seq(Real), y=Seq(Real), x_ref=Seq(Real),
@@ -296,23 +316,52 @@ def fixed_idx(x, x_ref, j, strategy):
     return nearest(x, x_ref[j], strategy)
 
 
+def fix_e(x, P, F, j):
+    """explicit designation: the j-th fixed index (explicit indices, or the position of the j-th explicit abscissa in x)"""
+    return F[j] if F is not None else nearest(x, P[j], 'closest')
+
+
+def n_e(P, F):
+    return len(F) if F is not None else len(P)
+
+
+def ref_e(x, x_ref, P, F, j):
+    """explicit designation: the reference position that corresponds to the j-th fixed point (the closest one)"""
+    return nearest(x_ref, x[fix_e(x, P, F, j)], 'closest')
+
+
+def explicit_ok(x, x_ref, P, F):
+    """the property's quantifier for explicitly designated fixed points: given in increasing order, members of x, distinct with
+    at least one interior sample per interval, and corresponding to distinct reference positions"""
+    return ((forall(range(len(F)), lambda j: 0 <= F[j] and F[j] < len(x)) and strictly_increasing(F)) if F is not None
+            else (strictly_increasing(P) and forall(range(len(P)), lambda j: x[nearest(x, P[j], 'closest')] == P[j]))) \
+        and n_e(P, F) >= 1 \
+        and forall(range(n_e(P, F) - 1), lambda j: fix_e(x, P, F, j + 1) - fix_e(x, P, F, j) >= 2
+                   and ref_e(x, x_ref, P, F, j) < ref_e(x, x_ref, P, F, j + 1))
+
+
 @requires(TOP)
 def top_pre(x, y, x_ref, y_ref, fixed_points_in_x, fixed_points_indices_in_x, fixed_points_finding_strategy,
             target_function_integral_method, reference_function_integral_method, alpha, s):
     return (len(x) >= 2 and len(y) == len(x) and strictly_increasing(x) and alpha > 0
             and len(x_ref) >= 1 and len(y_ref) == len(x_ref) and strictly_increasing(x_ref)
             # the property's quantifier: the selected fixed points are distinct and leave at least one interior sample
-            and implies(known_strategy(fixed_points_finding_strategy), forall(range(len(x_ref) - 1), lambda j:
-                        fixed_idx(x, x_ref, j + 1, fixed_points_finding_strategy)
-                        - fixed_idx(x, x_ref, j, fixed_points_finding_strategy) >= 2)))
+            and (explicit_ok(x, x_ref, fixed_points_in_x, fixed_points_indices_in_x)
+                 if (fixed_points_in_x is not None or fixed_points_indices_in_x is not None)
+                 else implies(known_strategy(fixed_points_finding_strategy), forall(range(len(x_ref) - 1), lambda j:
+                              fixed_idx(x, x_ref, j + 1, fixed_points_finding_strategy)
+                              - fixed_idx(x, x_ref, j, fixed_points_finding_strategy) >= 2))))
 
 
 @raises(TOP, 'ValueError')
 def top_rejected(x, y, x_ref, y_ref, fixed_points_in_x, fixed_points_indices_in_x, fixed_points_finding_strategy,
                  target_function_integral_method, reference_function_integral_method, alpha, s):
     """unknown search strategy or integration rule (the target rule only matters once there is a window)"""
-    return (not known_strategy(fixed_points_finding_strategy) or not known_rule(reference_function_integral_method)
-            or (not known_rule(target_function_integral_method) and len(x_ref) >= 2))
+    return ((not known_rule(reference_function_integral_method)
+             or (not known_rule(target_function_integral_method) and n_e(fixed_points_in_x, fixed_points_indices_in_x) >= 2))
+            if (fixed_points_in_x is not None or fixed_points_indices_in_x is not None)       # the search strategy is not used
+            else (not known_strategy(fixed_points_finding_strategy) or not known_rule(reference_function_integral_method)
+                  or (not known_rule(target_function_integral_method) and len(x_ref) >= 2)))
 
 
 @hint(TOP, before='fixed_points_in_x = np.unique(fixed_points_in_x)')
@@ -348,28 +397,58 @@ def top_integrals(x, y, x_ref, y_ref, fixed_points_in_x, fixed_points_indices_in
     """C01: between consecutive fixed points the result integrates (target rule) to the reference integral (reference rule)
     over the corresponding reference interval"""
     return (is_ndarray(result) and len(result) == len(y)
-            and forall(range(len(x_ref) - 1), lambda j:
-                       eq(sum_range(fixed_idx(x, x_ref, j, fixed_points_finding_strategy),
-                                    fixed_idx(x, x_ref, j + 1, fixed_points_finding_strategy),
-                                    lambda i: rule_term(x, result, i, target_function_integral_method)),
-                          rule_term(x_ref, y_ref, j, reference_function_integral_method))))
+            and (forall(range(n_e(fixed_points_in_x, fixed_points_indices_in_x) - 1), lambda j:
+                        eq(sum_range(fix_e(x, fixed_points_in_x, fixed_points_indices_in_x, j),
+                                     fix_e(x, fixed_points_in_x, fixed_points_indices_in_x, j + 1),
+                                     lambda i: rule_term(x, result, i, target_function_integral_method)),
+                           sum_range(ref_e(x, x_ref, fixed_points_in_x, fixed_points_indices_in_x, j),
+                                     ref_e(x, x_ref, fixed_points_in_x, fixed_points_indices_in_x, j + 1),
+                                     lambda k: rule_term(x_ref, y_ref, k, reference_function_integral_method))))
+                 if (fixed_points_in_x is not None or fixed_points_indices_in_x is not None)
+                 else forall(range(len(x_ref) - 1), lambda j:
+                             eq(sum_range(fixed_idx(x, x_ref, j, fixed_points_finding_strategy),
+                                          fixed_idx(x, x_ref, j + 1, fixed_points_finding_strategy),
+                                          lambda i: rule_term(x, result, i, target_function_integral_method)),
+                                rule_term(x_ref, y_ref, j, reference_function_integral_method)))))
 
 
 @ensures(TOP)
 def top_frame(x, y, x_ref, y_ref, fixed_points_in_x, fixed_points_indices_in_x, fixed_points_finding_strategy,
               target_function_integral_method, reference_function_integral_method, alpha, s, result):
     """C03: samples outside the span of the fixed points, and the fixed points themselves, are unchanged"""
-    return (forall(range(len(y)), lambda p:
-                   implies(p < fixed_idx(x, x_ref, 0, fixed_points_finding_strategy)
-                           or p > fixed_idx(x, x_ref, len(x_ref) - 1, fixed_points_finding_strategy), result[p] == y[p]))
-            and forall(range(len(x_ref)), lambda j: eq(result[fixed_idx(x, x_ref, j, fixed_points_finding_strategy)],
-                                                       y[fixed_idx(x, x_ref, j, fixed_points_finding_strategy)])))
+    return ((forall(range(len(y)), lambda p:
+                    implies(p < fix_e(x, fixed_points_in_x, fixed_points_indices_in_x, 0)
+                            or p > fix_e(x, fixed_points_in_x, fixed_points_indices_in_x,
+                                         n_e(fixed_points_in_x, fixed_points_indices_in_x) - 1), eq(result[p], y[p])))
+             and forall(range(n_e(fixed_points_in_x, fixed_points_indices_in_x)), lambda j:
+                        eq(result[fix_e(x, fixed_points_in_x, fixed_points_indices_in_x, j)],
+                           y[fix_e(x, fixed_points_in_x, fixed_points_indices_in_x, j)])))
+            if (fixed_points_in_x is not None or fixed_points_indices_in_x is not None)
+            else (forall(range(len(y)), lambda p:
+                         implies(p < fixed_idx(x, x_ref, 0, fixed_points_finding_strategy)
+                                 or p > fixed_idx(x, x_ref, len(x_ref) - 1, fixed_points_finding_strategy), result[p] == y[p]))
+                  and forall(range(len(x_ref)), lambda j: eq(result[fixed_idx(x, x_ref, j, fixed_points_finding_strategy)],
+                                                             y[fixed_idx(x, x_ref, j, fixed_points_finding_strategy)]))))
+
+
+@ensures(TOP, assumed='bounded: run-time monitoring on generated inputs only (see windows_profile_rt_c03)')
+def top_profile_rt_c03(x, y, x_ref, y_ref, fixed_points_in_x, fixed_points_indices_in_x, fixed_points_finding_strategy,
+                       target_function_integral_method, reference_function_integral_method, alpha, s, result):
+    """C03: between consecutive fixed points the samples move along the documented profile for the requested exponent"""
+    return (forall(range(n_e(fixed_points_in_x, fixed_points_indices_in_x) - 1), lambda j:
+                   profile_shaped(x, y, result, fix_e(x, fixed_points_in_x, fixed_points_indices_in_x, j),
+                                  fix_e(x, fixed_points_in_x, fixed_points_indices_in_x, j + 1), alpha))
+            if (fixed_points_in_x is not None or fixed_points_indices_in_x is not None)
+            else forall(range(len(x_ref) - 1), lambda j:
+                        profile_shaped(x, y, result, fixed_idx(x, x_ref, j, fixed_points_finding_strategy),
+                                       fixed_idx(x, x_ref, j + 1, fixed_points_finding_strategy), alpha)))
 
 
 # ------------------------------------------------------------------ run-time generators (bounded stand-in only)
 
 def gen_top(rnd):
     import numpy as np
+    from pyvc.spec import nearest
     m = rnd.randint(1, 5)
     n = rnd.randint(3, 6)
     xr = [float(rnd.randint(-3, 3))]
@@ -378,6 +457,10 @@ def gen_top(rnd):
     xs = []
     for k in range(m - 1):
         seg = np.linspace(xr[k], xr[k + 1], n + 1)[:-1]
+        if rnd.random() < 0.3:       # uneven spacing inside the interval
+            seg = xr[k] + (xr[k + 1] - xr[k]) * np.sort(np.concatenate([[0.0], [rnd.choice([0.1, 0.2, 0.35, 0.5, 0.6, 0.85, 0.9]) + 0.01 * q
+                                                                                   for q in range(n - 1)]]))
+            seg = np.unique(seg)
         xs.extend(seg.tolist())
     xs.append(xr[-1])
     if m == 1:
@@ -388,9 +471,30 @@ def gen_top(rnd):
     if rnd.random() < 0.3:
         xr = [v + rnd.choice([-0.05, 0.03, 0.0]) for v in xr]
     ys = np.array([float(rnd.randint(-6, 6)) / 2 for _ in xs])
+    if rnd.random() < 0.25:          # integer-valued data with an integer dtype (every finite y)
+        ys = np.array([rnd.randint(-6, 6) for _ in xs])
     yr = np.array([float(rnd.randint(-6, 6)) / 2 for _ in xr])
-    return dict(x=xs if rnd.random() < 0.8 else xs.tolist(), y=ys, x_ref=np.array(xr), y_ref=yr, fixed_points_in_x=None,
-                fixed_points_indices_in_x=None,
+    P = F = None
+    mode = rnd.random()
+    if mode < 0.45 and m >= 2:
+        # explicitly designated fixed points: a subset of the samples closest to the reference positions (possibly skipping
+        # reference positions, possibly ending before the last one), or arbitrary indices with an interior sample in between
+        if rnd.random() < 0.7:
+            c = [nearest(xs, v, 'closest') for v in xr]
+            idx = [c[j] for j in range(m) if rnd.random() < 0.7]
+        else:
+            idx = [rnd.randint(0, 2)]
+            while idx[-1] + 2 < len(xs) and rnd.random() < 0.8:
+                idx.append(idx[-1] + rnd.randint(2, 5))
+            idx = [i for i in idx if i < len(xs)]
+        idx = sorted(set(idx))
+        if idx:
+            if rnd.random() < 0.5:
+                F = np.array(idx) if rnd.random() < 0.6 else list(idx)
+            else:
+                P = xs[idx] if rnd.random() < 0.6 else xs[idx].tolist()
+    return dict(x=xs if rnd.random() < 0.8 else xs.tolist(), y=ys, x_ref=np.array(xr), y_ref=yr, fixed_points_in_x=P,
+                fixed_points_indices_in_x=F,
                 fixed_points_finding_strategy=rnd.choice(['closest', 'closest', 'lower', 'higher', 'nope']),
                 target_function_integral_method=rnd.choice(['trapezoid', 'rectangle', 'trapezoid', 'simpson']),
                 reference_function_integral_method=rnd.choice(['rectangle', 'trapezoid', 'rectangle', 'bad']),
@@ -406,10 +510,16 @@ def gen_windows(rnd):
     n = f[-1] + 1 + rnd.randint(0, 2)
     xs = np.cumsum([rnd.choice([0.5, 1.0, 1.5]) for _ in range(n)])
     ys = np.array([float(rnd.randint(-6, 6)) / 2 for _ in range(n)])
+    if rnd.random() < 0.25:          # integer dtype
+        ys = np.array([rnd.randint(-6, 6) for _ in range(n)])
     iv = [float(rnd.randint(-8, 8)) / 2 for _ in range(q - 1)]
+    method = rnd.choice(['trapezoid', 'rectangle', 'trapezoid', 'other'])
+    if rnd.random() < 0.25 and method != 'other':
+        # targets that differ from the current window integrals only slightly (an almost matched series is still matched exactly)
+        iv = [sum(rule_term(xs, ys, i, method) for i in range(f[j], f[j + 1])) + rnd.choice([4e-6, -7e-6, 2e-5, 0.0]) for j in range(q - 1)]
     return dict(x=xs, y=ys if rnd.random() < 0.7 else ys.tolist(), dx=1.0, integral_values=iv if rnd.random() < 0.5 else np.array(iv),
                 fixed_points_indices_in_x=np.array(f) if rnd.random() < 0.6 else f,
-                integral_method=rnd.choice(['trapezoid', 'rectangle', 'trapezoid', 'other']), alpha=rnd.choice([0.5, 1.0, 2.0]), s=None)
+                integral_method=method, alpha=rnd.choice([0.5, 1.0, 2.0]), s=None)
 
 
 def gen_kernel(rnd):
